@@ -13,13 +13,15 @@ def check(tier):
     rep = Report(PID, tier, "model_checking")
     dl = Deadline(420 if tier == "quick" else 3300)
     if tier == "quick":
-        vs.run_seq(rep, "seq_btreedelete", [(0, 20, 0), (1, 9, 0), (2, 12, 0), (3, 8, 0)])
+        vs.run_seq(rep, "seq_btreedelete", [(0, 20, 0), (1, 9, 0), (2, 12, 0), (3, 8, 0), (4, 6, 0), (5, 6, 0), (6, 6, 0)])
         vs.run_plan(rep, "c26_btreedelete_conc", [("2x1", 2, 30, 1), ("3x1", 1, 20, 3)], dl)
     else:
-        vs.run_seq(rep, "seq_btreedelete", [(0, 30, 0), (1, 12, 2000000), (2, 30, 3000000), (3, 14, 0)])
+        vs.run_seq(rep, "seq_btreedelete", [(0, 30, 0), (1, 12, 2000000), (2, 30, 3000000), (3, 14, 0), (4, 9, 3000000), (5, 9, 3000000), (6, 9, 3000000)])
         vs.run_plan(rep, "c26_btreedelete_conc", [("2x1", 3, 120, 1), ("3x1", 2, 60, 1), ("2x2", 1, 30, 3)], dl)
     rep.set("rule", "sequential: breadth-first search over operation histories {insert k, erase k, erase via iterator} on keys 1..8 / 1..10 / "
-            "multiset 1..4 / 7 keys spread over the 32-bit range, state = printed tree shape (addresses removed), oracle in every state: iteration, "
+            "multiset 1..4 / 7 keys spread over the 32-bit range, and every erase / re-insert history of depth <= 6 (thorough 9) from three-level trees of 18 keys "
+            "built in ascending / descending / interleaved order (inner-node underflow, rebalancing from either sibling, merging); a history on which the real "
+            "tree crashes or does not return within 30 s is a violation; state = printed tree shape (addresses removed), oracle in every state: iteration, "
             "size, check(), contains/find/lower_bound/upper_bound for every key and neighbour, getChunks, return values of insert/erase; "
             "concurrent: C25's scenarios on btree_delete_set")
     rep.assume("sequentially consistent executions for the concurrent part")
